@@ -41,14 +41,14 @@ def options(state):
     for j in (0, 1):
         st = state[j]
         if not st["open"] and not st["used"]:
-            out += [("open", j, c) for c in (0, 1, 2)]
+            out += [("open", j, c) for c in ((0, 1) if PLAIN["on"] else (0, 1, 2))]
         elif st["open"]:
             if any(passes(st, e) for e in st["queue"]) and not st["waiting"]:
                 out.append(("take", j))
             elif not st["waiting"]:
                 out.append(("wait", j))
             out += [("close", j, m) for m in (0, 1, 2)]
-    out += [("dispatch", "a"), ("dispatch", "b"), ("dispatch", "oa")]
+    out += [("dispatch", "a"), ("dispatch", "b")] + ([] if PLAIN["on"] else [("dispatch", "oa")])
     if not state["we"]["used"]:
         out.append(("wait_event", 0))
     return out
@@ -151,14 +151,34 @@ class StreamActor:
         return done
 
 
+PLAIN = {"on": False}  # the K=5 harness uses the smaller alphabet (queue sizes 1/2, one instance, two configs)
+
+
 def params(tier):
-    K = 4 if tier == "quick" else 5
-    return [P("q0", 0, 1)] + [P(f"o{i}", 0, 17) for i in range(K)]
+    return [P("q0", 0, 1)] + [P(f"o{i}", 0, 17) for i in range(4)]
+
+
+def params5(tier):
+    return [P(f"o{i}", 0, 14) for i in range(5)]
+
+
+@guard
+def fn5(a, tier):
+    PLAIN["on"] = True
+    try:
+        a = dict(a)
+        a["q0"] = 0
+        return _fn(a, tier, 5)
+    finally:
+        PLAIN["on"] = False
 
 
 @guard
 def fn(a, tier):
-    K = 4 if tier == "quick" else 5
+    return _fn(a, tier, 4)
+
+
+def _fn(a, tier, K):
     ops = decode(a, K)
     src, other = Source(), Source()
     model = {j: None for j in (0, 1)}  # None | dict(cfg, queue, waiting, got, open)
@@ -299,7 +319,7 @@ H = Harness(
     params=params,
     cube=lambda tier: 3,
     title="histories of open / dispatch / take / blocking wait / close (3 ways) / wait_event over two streams and two channels",
-    bound_text=lambda tier: f"{4 if tier == 'quick' else 5} operations then a final drain; 2 streams with queue sizes (1 or 0) and 2, each opened once with "
+    bound_text=lambda tier: f"4 operations then a final drain; 2 streams with queue sizes (1 or 0) and 2, each opened once with "
     "config {[a], no filter}, {[a,b], even filter} or {[a, a-of-an-equal-other-instance]}; dispatches on a/b of one value-object instance and on `a` of "
     "another instance that compares equal; closing by normal exit / "
     "exception in the block / cancellation of the consumer; one wait_event with a filter",
@@ -311,4 +331,80 @@ H = Harness(
     stubs=STUBS_COMMON,
 )
 
-HARNESSES = [H]
+H5 = Harness(
+    prop="C10",
+    name="E-history5",
+    fn=fn5,
+    params=params5,
+    cube=lambda tier: 2,
+    tiers=("thorough",),
+    title="histories of FIVE operations with the smaller alphabet",
+    bound_text=lambda tier: "5 operations then a final drain; queue sizes 1 and 2, configs {[a], no filter} / {[a,b], even filter}, dispatches on a/b, three ways of closing, one wait_event",
+    oracle=H.oracle,
+    outside=H.outside,
+    stubs=STUBS_COMMON,
+)
+
+# ------------------------------------------------------------------------------ E-queue
+def queue_params(tier):
+    return [P("q1", 0, 6), P("q2", 0, 6), P("b", 0, 8), P("taken", 0, 3)]
+
+
+@guard
+def queue_fn(a, tier):
+    q1, q2, b, taken = pick(a["q1"], 7), pick(a["q2"], 7), pick(a["b"], 9), pick(a["taken"], 4)
+    src = Source()
+    out = {}
+
+    async def main():
+        async with stream_events([src.a], max_queue_size=q1) as s1, stream_events([src.a], max_queue_size=q2) as s2:
+            sent = [Ev(i) for i in range(b)]
+            got1, got2 = [], []
+            with warnings.catch_warnings(record=True) as w:
+                warnings.simplefilter("always")
+                for i, ev in enumerate(sent):
+                    src.a.dispatch(ev)
+                    if i == 0 and taken:
+                        # the first subscriber consumes `taken` events after the first dispatch (if it has them)
+                        for _ in range(min(taken, 1 if q1 >= 1 else 0)):
+                            got1.append(await s1.__anext__())
+            out["warn"] = sorted(int(str(x.message).split("(")[1].split(")")[0]) for x in w if issubclass(x.category, SignalQueueFull))
+            with anyio.move_on_after(1):
+                async for ev in s1:
+                    got1.append(ev)
+            with anyio.move_on_after(1):
+                async for ev in s2:
+                    got2.append(ev)
+            out["got1"], out["got2"], out["sent"] = got1, got2, sent
+
+    _, exc, _k = run(main)
+    summary = {"queue_sizes": [q1, q2], "burst": b, "first_subscriber_reads_one_after_the_first_dispatch": bool(taken and q1 >= 1 and b >= 1)}
+    if exc is not None:
+        return FAIL(f"queue:raised:{type(exc).__name__}", repr(exc), summary)
+    freed = 1 if (taken and q1 >= 1 and b >= 1) else 0
+    exp1 = out["sent"][: min(b, q1 + freed)] if q1 >= 1 else []
+    exp2 = out["sent"][: min(b, q2)]
+    if len(out["got1"]) != len(exp1) or any(x is not y for x, y in zip(out["got1"], exp1)):
+        return FAIL(f"queue:first-subscriber:q={q1}:b={b}", f"got {[e.n for e in out['got1']]} expected {[e.n for e in exp1]}", summary)
+    if len(out["got2"]) != len(exp2) or any(x is not y for x, y in zip(out["got2"], exp2)):
+        return FAIL(f"queue:second-subscriber:q={q2}:b={b}", f"got {[e.n for e in out['got2']]} expected {[e.n for e in exp2]}", summary)
+    exp_warn = sorted([q1] * (b - len(exp1)) + [q2] * (b - len(exp2)))
+    if out["warn"] != exp_warn:
+        return FAIL(f"queue:warnings:q={q1},{q2}:b={b}", f"got {out['warn']} expected {exp_warn}", summary)
+    return OK(summary, nontrivial=b > 0)
+
+
+QUEUE = Harness(
+    prop="C10",
+    name="E-queue",
+    fn=queue_fn,
+    params=queue_params,
+    cube=lambda tier: 1,
+    title="queue sizes and burst length: only the full subscriber loses only the overflowing events",
+    bound_text=lambda tier: "two subscribers with queue sizes 0..6 each, a burst of 0..8 dispatches without the consumers running; the first consumer optionally reads one event after the first dispatch",
+    oracle="each subscriber receives exactly the first min(burst, its capacity) events, in order; one SignalQueueFull warning per dropped event, naming that subscriber's queue size",
+    outside="larger queues/bursts",
+    stubs=STUBS_COMMON,
+)
+
+HARNESSES = [H, H5, QUEUE]
